@@ -38,6 +38,10 @@ def build(backend, tier):
         "index0": (f"{S}[0].pt()", [f"{S}.Count() > 0"]),
         "index1": (f"{S}[1].pt()", [f"{S}.Count() > 1"]),
         "index2": (f"{S}[2].nTrk()", [f"{S}.Count() > 2"]),
+        "index-neg1": (f"{S}[-1].pt()", [f"{S}.Count() > 0"]),
+        "index-neg2": (f"{S}[-2].pt()", [f"{S}.Count() > 1"]),
+        "index-last": (f"{S}[{S}.Count() - 1].pt()", [f"{S}.Count() > 0"]),
+        "index-count": (f"{S}[{S}.Count()].pt()", []),
         "first-tags-first": (f"{S}.First().tags().First()", []),
         "first-of-constant": (f"{S}.Where(lambda j: j.pt() > 1).Select(lambda j: 1).First()", [f"{S}.Where(lambda j: j.pt() > 1).Count() > 0"]),
         "first-of-float-constant": (f"{S}.Select(lambda j: 2.5).First()", [f"{S}.Count() > 0"]),
@@ -68,6 +72,8 @@ def build(backend, tier):
     el_partials = {
         "tags-first": ("j.tags().First()", ["j.tags().Count() > 0"]),
         "tags-index1": ("j.tags()[1]", ["j.tags().Count() > 1"]),
+        "tags-index-neg2": ("j.tags()[-2]", ["j.tags().Count() > 1"]),
+        "tags-index-ntrk": ("j.tags()[j.nTrk()]", ["j.tags().Count() > j.nTrk()"]),
         "parts-first": ("j.parts().First().pt()", ["j.parts().Count() > 0"]),
         "parts-first-where": ("j.parts().Where(lambda p: p.pt() > 0).First().pt()", ["j.parts().Where(lambda p: p.pt() > 0).Count() > 0"]),
         "link": ("j.link().pt()", (["isNonnull(j.link())"] if a.has_nonnull else [])),
@@ -130,7 +136,7 @@ def post(outs, events):
             if not j.events:
                 continue
             er = j.events[0]
-            r = classify_event(c.text, events[er.event], er)
+            r = classify_event(c.text, events[er.event], er, loud_ok="[-" in c.text)
             stats["executions"] += 1
             if r is None:
                 stats["agree"] += 1
@@ -182,7 +188,7 @@ def main(tier="quick"):
             c = by_pid[r["pid"]]
             o = run_standalone(c, events, [("s", [r["event"]])])
             if o.status == "ok" and o.jobs and o.jobs[0].events:
-                again = classify_event(c.text, events[r["event"]], o.jobs[0].events[0])
+                again = classify_event(c.text, events[r["event"]], o.jobs[0].events[0], loud_ok="[-" in c.text)
                 if again is None or isinstance(again, tuple):
                     raise RuntimeError(f"harness: mismatch did not reproduce standalone: {r}")
                 r["standalone_confirmed"] = True
